@@ -118,12 +118,10 @@ theorem allNotes_total (e : Enc) (src : NoteSrc) (pos : List (BitVec 64))
     (h : ∀ k : BitVec 32, ∃ r, Note.get e src pos k = .ok r) : allNotes e src pos = .ok () := by
   unfold allNotes
   obtain ⟨u, hu, -⟩ := forIdx_total (fun _ : Unit => True)
-    (fun _ j => match Note.get e src pos (BitVec.ofNat 32 j) with
-      | .error f => .error f
-      | .ok _ => pure ())
+    (fun _ j => ignore (Note.get e src pos (BitVec.ofNat 32 j)))
     (fun s i _ => by
       obtain ⟨r, hr⟩ := h (BitVec.ofNat 32 i)
-      exact ⟨(), by simp only [hr]; rfl, trivial⟩)
+      exact ⟨(), by simp only [hr, ignore]; rfl, trivial⟩)
     (List.range (Note.num pos).toNat) () trivial
   exact hu
 
@@ -695,6 +693,16 @@ theorem getSym_total (t : SymTab) (h : SymReady t) (k : BitVec 64) : ∃ r, getS
   obtain ⟨r, hr⟩ := sym_get_total t h k [] {}
   simp only [hr]
   exact ⟨_, rfl⟩
+
+theorem allSyms_total (t : SymTab) (h : SymReady t) (n : Nat) : allSyms t n = .ok () := by
+  unfold allSyms
+  obtain ⟨u, hu, -⟩ := forIdx_total (fun _ : Unit => True)
+    (fun _ k => ignore (getSym t (BitVec.ofNat 64 k)))
+    (fun s k _ => by
+      obtain ⟨r, hr⟩ := getSym_total t h (BitVec.ofNat 64 k)
+      exact ⟨(), by simp only [hr, ignore]; rfl, trivial⟩)
+    (List.range n) () trivial
+  exact hu
 
 end Inspect
 end ElfioVerif
